@@ -36,6 +36,10 @@ func payGenesis() *types.AppState {
 	g.Bal(A, 0, e18(1000000)).Bal(B, 0, e18(1000000)).Bal(C, 0, e18(50)).Bal(M, 0, e18(10000)).Bal(V, 0, e18(1000000))
 	// erin holds nothing but 1 BIP plus the fee of one plain send: one transaction empties the account
 	g.Bal(K("erin").Addr, 0, new(big.Int).Add(e18(1), I(DistinctCommission().Send)))
+	// gina holds 10 COINA plus twice the redeem fee counted in BIP pips: COINA is worth about 0.2 BIP,
+	// the fee of a COINA check in COINA is about five times that figure, so her check over 10 COINA is not covered
+	ginaHolds := new(big.Int).Add(e18(10), new(big.Int).Mul(big.NewInt(2), I(DistinctCommission().RedeemCheck)))
+	g.Bal(K("gina").Addr, PayCoinA, ginaHolds).Bal(V, PayCoinA, new(big.Int).Neg(ginaHolds)) // taken from vown: the volume stays the sum of the balances
 	// COINA: volume 1,000,000; reserve 100,000 BIP; crr 50
 	g.Coin(PayCoinA, "COINA", e18(1000000), e18(100000), 50, e18(100000000), &A)
 	g.Bal(A, PayCoinA, e18(300000)).Bal(B, PayCoinA, e18(300000)).Bal(C, PayCoinA, e18(100000)).Bal(M, PayCoinA, e18(100000)).Bal(V, PayCoinA, e18(200000))
@@ -55,7 +59,21 @@ func send(name string, from *Key, to types.Address, coin types.CoinID, v *big.In
 }
 
 func init() {
-	Register("pay", func() *World {
+	// "paytable": the pay world under a price table denominated in TOKA (pool 1 converts it to BIP)
+	Register("paytable", func() *World {
+		w := buildPay()
+		w.Genesis = func() *types.AppState {
+			s := payGenesis()
+			s.Commission.Coin = PayTokA
+			return s
+		}
+		return w
+	})
+	Register("pay", buildPay)
+}
+
+func buildPay() *World {
+	{
 		A, B, C, D := K("alice"), K("bob"), K("carol"), K("dave")
 		M := types.HexToAddress(PayMsAddr)
 		h0 := uint64(BaseHeight)
@@ -136,6 +154,8 @@ func init() {
 			}(),
 			send("E->A 1 BIP (empties the account: no coin left, nonce 1)", K("erin"), A.Addr, 0, e18(1), 0),
 			send("A->E 10 BIP", A, K("erin").Addr, 0, e18(10), 0),
+			redeem("B redeems gina's COINA check (value + fee in COINA exceed what she holds; value + the fee's BIP figure do not)", B,
+				IssueCheck(K("gina"), "n6", types.CurrentChainID, h0+3, PayCoinA, e18(10), PayCoinA, "pw"), "pw", PayCoinA, 1),
 		}
 		// "C uses B's proof": the proof was made for B's address
 		for i := range w.Menu {
@@ -144,5 +164,5 @@ func init() {
 			}
 		}
 		return w
-	})
+	}
 }
